@@ -304,7 +304,7 @@ func buildFlow(p P) flow {
 	case 2:
 		w := px.NewW2(p.Key)
 		c := type2.NewBasicPublicClient()
-		salts := [][]byte{mc.Fill(p.Seed, "c11-salt-0", 48), mc.Fill(p.Seed, "c11-salt-1", 48)}
+		salts := [][]byte{mc.Fill(p.Seed, "c11-salt-0", 48), mc.Fill(p.Seed, "c11-salt-1", 48), nil, {}, mc.Fill(p.Seed, "c11-salt-short", 47)} // 2..4: degenerate salts (consistency only)
 		rb := map[int][]byte{}
 		for _, b := range []int{p.I, p.J} {
 			rb[b] = rsaBlind(p.Seed, b, w.Key.N, fmt.Sprintf("k%d", p.Key))
@@ -572,18 +572,21 @@ func runDegenerate(p P) (string, *mc.Viol) {
 	_ = f.unrelated()
 	o3 := outcome()
 	name := degenerateNames[p.I]
+	if p.T == 2 && p.Salt >= 2 {
+		name = map[int]string{2: "nil salt", 3: "empty salt", 4: "47-byte salt"}[p.Salt]
+	}
 	if name == "" {
 		name = map[int]string{110: "no blinds", 111: "one blind too few", 112: "one blind too many"}[p.I]
 	}
 	if o1 != o2 || o1 != o3 {
-		return "degenerate-not-reproducible", &mc.Viol{Sig: fmt.Sprintf("type%d request creation with a caller-supplied degenerate blind (%s) is not reproducible", p.T, name),
+		return "degenerate-not-reproducible", &mc.Viol{Sig: fmt.Sprintf("type%d request creation with a caller-supplied degenerate blind or salt (%s) is not reproducible", p.T, name),
 			What: fmt.Sprintf("%s: first %s, second %s, third %s", p.label(), trunc(o1, 90), trunc(o2, 90), trunc(o3, 90))}
 	}
 	return "degenerate blind: same outcome every time (" + strings.SplitN(o1, " ", 2)[0] + ")", nil
 }
 
 func runPairSafe(p P) (out string, v *mc.Viol) {
-	if p.I >= 100 && p.I < 200 {
+	if p.I >= 100 && p.I < 200 || p.T == 2 && p.Salt >= 2 {
 		if pn := mc.CatchStack(func() { out, v = runDegenerate(p) }); pn != "" {
 			return "panic", &mc.Viol{Sig: fmt.Sprintf("type%d fixed-blind issuance panics: %s", p.T, trunc(pn, 50)), What: p.label() + ": " + pn}
 		}
@@ -1018,6 +1021,9 @@ func main() {
 		for salt := 0; salt < 2; salt++ {
 			cases = append(cases, P{T: 2, Key: rsaKeys[0], In: 0, Salt: salt, I: kind, J: kind, Seed: r.Seed})
 		}
+	}
+	for salt := 2; salt <= 4; salt++ {
+		cases = append(cases, P{T: 2, Key: rsaKeys[0], In: 0, Salt: salt, I: 4, J: 4, Seed: r.Seed}, P{T: 2, Key: rsaKeys[0], In: 0, Salt: salt, I: 0, J: 0, Seed: r.Seed})
 	}
 	for _, kind := range []int{110, 111, 112} {
 		cases = append(cases, P{T: 5, Key: oprfKeys[0], In: 0, Batch: 2, I: kind, J: kind, Seed: r.Seed})
